@@ -1,4 +1,4 @@
-import CardVerif.Model.Pot
+import CardModel.Model.Pot
 import Mathlib.Tactic.Linarith
 import Mathlib.Tactic.Ring
 import Mathlib.Tactic.Positivity
